@@ -91,6 +91,7 @@ pub fn run(ctx: &Ctx) -> Result<()> {
 				col.out.line(&format!("c12.pm {enc} => wf {}", opened.join(",")));
 			}
 			// correspondence: header parsing of every torn final header
+			#[cfg(not(verif_nohooks))]
 			for c in 0..=hl { let bytes = materialise(&ops, n - 1, c); if bytes.len() < hl { continue; } let h = bytes[..hl].to_vec();
 				if fmt == "versatiles" {
 					use versatiles_container::verif_versatiles_types::FileHeader;
